@@ -85,6 +85,16 @@ example : hasLevel ⟨true, true, true, false⟩ 3 ∧ ¬ hasLevel ⟨true, true
   · exact ⟨fun _ => rfl, fun _ => rfl, fun _ => rfl, fun h => absurd h (by decide)⟩
   · intro h; exact absurd (h.2.2.2 (Nat.le_refl 4)) (by decide)
 
+/-- Consequence clause ("a float build decodes identical final ranges … identical packets where only integer kernels
+    differ"): in this configuration every *float* kernel table holds the same function at arch indices 0..3, so between
+    those levels only integer kernels (required bit-exact) change and the encoder must emit identical packets — which is
+    what the whole-codec search checks at OPUS_VERIF_ARCH_CAP=0..3. -/
+theorem float_kernels_fixed_below_avx2 : ∀ t ∈ DispatchTables.tables, t.1 ∈ floatTables →
+    ∀ a ∈ List.range 4, t.2.2[a]? = t.2.2[0]? := float_tables_const_below_avx2
+
+example : "PITCH_XCORR_IMPL" ∈ floatTables ∧ (DispatchTables.tables.filter (fun t => floatTables.contains t.1)).length = 2 := by
+  decide
+
 /-! ### (ii) silk_VQ_WMat_EC: SSE4.1 = C, bit for bit -/
 
 /-- For ALL inputs — every 32-bit correlation matrix/vector, every codebook (any `L`, any int8 rows, any gains and code
